@@ -757,6 +757,17 @@ func (in *Interp) initExterns() {
 	E["github.com/cespare/xxhash/v2.Sum64String"] = func(in *Interp, _ *frame, _ *ssa.Function, a []value) value {
 		return xx(in, a[0].(Str).b)
 	}
+	E["github.com/redis/go-redis/v9/internal/util.StringToBytes"] = func(in *Interp, _ *frame, _ *ssa.Function, a []value) value {
+		b := a[0].(Str).b
+		out := make([]value, len(b))
+		for i, t := range b {
+			out[i] = t
+		}
+		return Slice{a: out}
+	}
+	E["github.com/redis/go-redis/v9/internal/util.BytesToString"] = func(in *Interp, _ *frame, _ *ssa.Function, a []value) value {
+		return Str{sliceBytes(a[0].(Slice))}
+	}
 	E["os.Getenv"] = func(in *Interp, _ *frame, _ *ssa.Function, a []value) value { return Str{} }
 }
 
